@@ -61,7 +61,7 @@ Compose ==
     /\ Len(S.toks) = n0[1] + Len(S2.toks)
     /\ \A i \in 1..Len(S2.toks) : S.toks[n0[1] + i] = ShiftTokM(S2.toks[i])
     /\ Len(S.errs) = n0[2] + Len(S2.errs)
-    /\ \A i \in 1..Len(S2.errs) : S.errs[n0[2] + i] = [S2.errs[i] EXCEPT !.c = @ + p0]
+    /\ \A i \in 1..Len(S2.errs) : S.errs[n0[2] + i] = [S2.errs[i] EXCEPT !.c = @ + p0, !.lt = @ + n0[1]]
     /\ Len(S.lines) = n0[3] + Len(S2.lines) - 1
     /\ \A i \in 2..Len(S2.lines) : S.lines[n0[3] + i - 1] = S2.lines[i] + p0
     /\ S.nlit = n0[4] + S2.nlit
